@@ -15,7 +15,7 @@ try:
         viol = [l for l in r.stdout.splitlines() if l.startswith("VIOLATION")]
         notes = [l for l in r.stdout.splitlines() if l.startswith("  #")]
         out[pid] = dict(exit=r.returncode, violations=len(viol), first=(notes[0][:300] if notes else ""), wall=round(time.time() - t, 1))
-        print(name, pid, "exit", r.returncode, "violations", len(viol), (notes[0][:200] if notes else ""))
+        print(name, pid, "exit", r.returncode, "violations", len(viol), (" | ".join(n[:160] for n in notes[:3])))
 finally:
     subprocess.run(["git", "-C", "/repo", "checkout", "--", "."], check=True)
     subprocess.run(["git", "-C", "/repo", "clean", "-fdq", "--", "compiler", "lib"], check=False)
